@@ -20,8 +20,8 @@ RULE = ("scenarios from Hypothesis (entity = file or folder; previous data or no
         "every effect of the operation (creating / truncating open, each flushed write with its byte length, os.replace / rename, mkdir, touch); "
         "the operation is then re-run from the restored snapshot once per crash point - before each effect and inside every write at each byte "
         "boundary - raising a BaseException that simulates process death (nothing buffered is flushed). After each crash a fresh Getter must "
-        "read exactly the old or exactly the new record, the other entity's record and the search results are unchanged, and the next set "
-        "succeeds and reads back. Corruption: the sidecar is truncated at every byte, emptied, replaced by a directory, filled with garbage and "
+        "read exactly the old or exactly the new record, the other entity's record and the search results are unchanged, and the next set (adding a key, or - half of the scenarios - "
+        "replacing a value by a shorter one) succeeds and reads back. Corruption: the sidecar is truncated at every byte, emptied, replaced by a directory, filled with garbage and "
         "made unreadable; that Sid must read as {'sid': ...} and searches / other Sids' reads must not fail. "
         "evaluations = crash points + corruptions executed; non-trivial = crash point strictly inside the effects of an overwrite, or a "
         "corruption; distinct = (scenario, crash point)")
@@ -37,7 +37,7 @@ def _m():
     return confmodel.load()
 
 
-small_json = st.one_of(st.integers(0, 999), st.text(alphabet="abc é\"\\", max_size=6), st.none(), st.booleans(),
+small_json = st.one_of(st.integers(0, 999), st.text(alphabet="abc é\"\\", max_size=6), st.text(alphabet="ab", min_size=20, max_size=40), st.none(), st.booleans(),
                        st.lists(st.integers(0, 9), max_size=3))
 KEYS = ["comment", "author", "k1", "k2"]
 data_dict = st.dictionaries(st.sampled_from(KEYS), small_json, min_size=1, max_size=3)
@@ -55,7 +55,8 @@ def cases(draw):
     op = draw(st.sampled_from(["set", "set", "set_attr", "update", "create_data"]))
     prev = draw(st.one_of(st.none(), data_dict)) if op != "create_data" else None
     return {"entities": [[t, f] for t, f in ents], "e": e, "o": o, "op": op, "prev": prev, "new": draw(data_dict),
-            "other": draw(data_dict), "mode": draw(st.sampled_from(["crash", "crash", "crash", "corrupt"]))}
+            "other": draw(data_dict), "mode": draw(st.sampled_from(["crash", "crash", "crash", "corrupt"])),
+            "next": draw(st.sampled_from(["grow", "shrink"]))}
 
 
 def sidecar(model, path):
@@ -184,12 +185,17 @@ def evaluate(case) -> Outcome:
         # the next set succeeds and reads back
         exists_now = Path(pe).exists()
         if exists_now:
-            okn, rn = call(lambda: WriteToPaths(cname).set(se, k9=ei * 1000 + k))
+            if case.get("next") == "shrink":
+                # the next write is SHORTER than the interrupted one (left-overs of the dead process must not show through)
+                nxt = {list(case["new"])[0]: 0}
+            else:
+                nxt = {"k9": ei * 1000 + k}
+            okn, rn = call(lambda: WriteToPaths(cname).set(se, **nxt))
             if not okn:
                 out.add(f"C17/crash/next-set-fails/{type(rn).__name__}", f"{where}: the next set raised {rn!r}")
                 break
             okr2, rec2 = read(se)
-            exp2 = dict(rec, k9=ei * 1000 + k)
+            exp2 = dict(rec, **nxt)
             if not okr2 or rec2 != exp2:
                 out.add("C17/crash/next-set-does-not-read-back", f"{where}: after the next set get_data = {rec2}, expected {exp2}")
                 break
